@@ -21,6 +21,15 @@ class Ptr:
 
 NULL = Ptr(0, 0)
 
+class TPtr(Ptr):
+    """pointer into a read-only constant table (libc's character-class table) at a *symbolic* element
+    index: region, byte offset of element 0, signed index term, element size. Only loads are allowed;
+    the load is an if-then-else term over the table, after the solver has shown the index in range."""
+    __slots__ = ("sym", "scale")
+    def __init__(self, region, off, sym, scale):
+        Ptr.__init__(self, region, off)
+        self.sym, self.scale = sym, scale
+
 class Violation(Exception):
     def __init__(self, kind, msg):
         self.kind, self.msg = kind, msg
@@ -181,9 +190,10 @@ class Module:
 # State
 
 class Region:
-    __slots__ = ("size", "data", "name", "freed", "heap", "foreign")
+    __slots__ = ("size", "data", "name", "freed", "heap", "foreign", "table")
     def __init__(self, size, name, heap=False):
         self.size, self.name, self.heap = size, name, heap
+        self.table = False     # read-only constant table that may be indexed symbolically
         self.data = [None] * size
         self.freed = False
         self.foreign = False   # owned by the caller's library (libpam): the module may read it only
@@ -349,7 +359,27 @@ class Engine:
         for i, b in enumerate(bs):
             r.data[p.off + i] = b
 
+    def load_table(self, st, p, t):
+        n = self.m.sizeof(t)
+        r = self.check_access(st, Ptr(p.region, 0), 1, "load")
+        lo = -(p.off // p.scale)                    # smallest index inside the table
+        hi = (r.size - n - p.off) // p.scale        # largest index inside the table
+        w = p.sym.size()
+        inside = z3.And(p.sym >= z3.BitVecVal(lo, w), p.sym <= z3.BitVecVal(hi, w))
+        if self.feasible(st, z3.Not(inside)):
+            raise Violation("memory", "load out of bounds: %s indexed outside [%d..%d]" % (r.name, lo, hi))
+        v = None
+        for i in range(hi, lo - 1, -1):
+            o = p.off + i * p.scale
+            e = r.data[o]
+            for b in r.data[o + 1:o + n]:
+                e = z3.Concat(b, e)
+            v = e if v is None else z3.If(p.sym == z3.BitVecVal(i, w), e, v)
+        return z3.simplify(v)
+
     def load(self, st, p, t):
+        if isinstance(p, TPtr):
+            return self.load_table(st, p, t)
         n = self.m.sizeof(t)
         if t.endswith("*"):
             r = self.check_access(st, p, 8, "load")
@@ -424,6 +454,9 @@ class Engine:
         for k, iv in enumerate(idx):
             iv = z3.simplify(iv)
             if not z3.is_bv_value(iv):
+                r0 = st.regions.get(base.region)
+                if k == 0 and len(idx) == 1 and r0 is not None and r0.table and not isinstance(base, TPtr):
+                    return TPtr(base.region, off, iv, self.m.sizeof(cur))
                 val = self.concretize(st, iv, worklist)
             else:
                 val = iv.as_long()
